@@ -221,8 +221,15 @@ theorem swap_spec (s : Stk) (i j : Int) (hwf : s.WF) (hi : InInt i) (hj : InInt 
   rw [inInt_iff] at hi hj
   have hsm := hwf.small
   unfold SmallLen at hsm; rw [pow62] at hsm
-  unfold swap Gen.swap_ok_i Gen.swap_ok_j inRange
-  simp only [hu]
+  unfold swap inRange
+  -- the regenerated guard fires exactly when one of the positions is outside 0 ≤ · < Len
+  have hrej : Gen.swap_reject { i := i, j := j, ulen := s.ulen } =
+      !((decide (0 ≤ i) && decide (i < (s.xs.length : Int))) && (decide (0 ≤ j) && decide (j < (s.xs.length : Int)))) := by
+    unfold Gen.swap_reject
+    simp only [hu]
+    by_cases h1 : 0 ≤ i <;> by_cases h2 : i < (s.xs.length : Int) <;> by_cases h3 : 0 ≤ j <;>
+      by_cases h4 : j < (s.xs.length : Int) <;> simp [h1, h2, h3, h4]
+  rw [hrej]
   by_cases hI : 0 ≤ i ∧ i < (s.xs.length : Int)
   · by_cases hJ : 0 ≤ j ∧ j < (s.xs.length : Int)
     · have e1 : wrap64 (i + 1) = ((i.toNat : Nat) : Int) + 1 := by rw [wrap64_eq] <;> omega
